@@ -259,7 +259,8 @@ class Check:
         return 0
 
     def write_evidence(self, t0, thms, proof_ok, gen_total, gen_ok, axioms=None, infra=None):
-        os.makedirs(os.path.join(ROOT, "evidence"), exist_ok=True)
+        evdir = os.environ.get("VERIF_EVIDENCE_DIR", os.path.join(ROOT, "evidence"))
+        os.makedirs(evdir, exist_ok=True)
         n_slices = len(self.slices)
         slices_ok = sum(1 for s in self.slices if self.slice_ok.get(s, True))
         obligations = len(thms) + gen_total + n_slices
@@ -294,7 +295,7 @@ class Check:
         }
         if infra is not None:
             ev["coverage"]["infrastructure_error"] = infra[-2000:]
-        json.dump(jsonable(ev), open(os.path.join(ROOT, "evidence", self.pid + ".json"), "w"), indent=1)
+        json.dump(jsonable(ev), open(os.path.join(evdir, self.pid + ".json"), "w"), indent=1)
 
 
 # ---------------------------------------------------------------------------------------------
